@@ -112,6 +112,14 @@ def record(job):
                 from .. import loaders
                 obs = loaders.load({"PVL": "PVL", "ODL": "ODL", "PDS3": "PDS3", "ISIS": "ISIS", "OMNI": "OMNI"}[d], s + " = 1\nEND\n")
                 ev["nameok"] = obs["kind"] == "module" and any(x["t"] == "item" and x["s"] == s for x in obs["tree"]["xs"])
+        ev["encname"] = False
+        if enc is not None and plain and (ev["nd"] or ev["dec"] or ev["dt"]):
+            for e2 in (enc, type(enc)(grammar=g)):
+                try:
+                    e2.encode_assignment(s, 1)
+                    ev["encname"] = True
+                except Exception:
+                    pass
         ev["enc"], ev["redec"] = "none", "n/a"
         if enc is not None:
             try:
@@ -170,7 +178,22 @@ def run_classes(ctx, rep, maxlen, with_mutations=True):
         texts += sorted(extra - set(texts))
         texts += LONG_WORDS
     jobs = [(d, s) for s in texts for d in loaders.CONFIGS]
+    # the lexicon once more with the dialects in the opposite order (decoders of different dialects must not influence
+    # each other: the class of a text is a function of the dialect and the text)
+    njobs = len(jobs)
+    if with_mutations:
+        jobs += [(d, s) for s in LEXICON for d in reversed(loaders.CONFIGS)]
     evs = pool_map(record, jobs, chunksize=500)
+    first = {(e["d"], tuple(e["s"])): e for e in evs[:njobs]}
+    order_fails = []
+    for e in evs[njobs:]:
+        f = first.get((e["d"], tuple(e["s"])))
+        if f is not None and f != e:
+            diff = sorted(k for k in e if f.get(k) != e[k])
+            order_fails.append(("C17", {"config": e["d"], "locus": "order-of-dialects", "features": loaders.text_features(loaders.cps(e["s"])),
+                                        "observed": "classification-depends-on-earlier-calls"},
+                                {"config": e["d"], "text": loaders.cps(e["s"])}, {"fields_that_differ": diff, "first": {k: f[k] for k in diff}, "second": {k: e[k] for k in diff}}))
+    evs = evs[:njobs]
     batches = list(chunks(evs, 20000))
     from concurrent.futures import ThreadPoolExecutor
 
@@ -201,5 +224,6 @@ def run_classes(ctx, rep, maxlen, with_mutations=True):
                 fails.append((prop, {"config": ev["d"], "locus": v["ref"], "features": loaders.text_features(s),
                                      "observed": clause + (":" + ev["decoded"] if clause == "ref-class" else "")},
                               {"config": ev["d"], "text": s}, {"record": {k: ev[k] for k in ev if k not in ("s",)}, "reference_class": v["ref"]}))
+    fails += order_fails
     rep.sample({"text": "2#101#", "note": "one record per (dialect, text): predicates, decoder outcome, encoder decision"}, limit=12)
     return fails
